@@ -104,7 +104,7 @@ PROPERTIES = {
         "level_text": "model-based monitoring of the real Blockchain (store/get/fetch/ancestry) against a reference forest, exhaustive for <=3 blocks and random beyond, and of the real "
                       "Committer+PruneToHeight under a scripted commit rule with CommitEvent/AbortEvent observed on the event loop",
         "level_note": "the stub sender serves withheld blocks honestly (the hash check on fetched blocks lives in network.qspec and is exercised under C12); commit targets are chosen by the scenario",
-        "technique": "reference-model monitor over operation sequences + event-history check (abort vs commit)",
+        "technique": "reference-model monitor over operation sequences + event-history check (abort vs commit) + race detector over a live loopback cluster (anchor files)",
         "exhaustive": True,
         "rule": "C13: block store model",
         "anchors": ["security/blockchain/blockchain.go", "protocol/consensus/committer.go"],
@@ -132,7 +132,7 @@ PROPERTIES = {
         "level_text": "enumeration of every structural certificate-mutation class x scheme x cache size x n=1..13 against the real Verify* functions, judged by a ground-truth oracle built "
                       "from a log of real signing operations (never by security/cert); completeness checked for honestly assembled certificates at every replica",
         "level_note": "assumes cryptographic hardness (structural forgeries, plus the BLS rogue-key registration adversary: chosen public key and chosen proof-of-possession); bootstrap convention for signature-free certificates; a panic during verification is a C10 event, not a verdict",
-        "technique": "fault enumeration over certificate mutations with a sign-log ground-truth oracle",
+        "technique": "fault enumeration over certificate mutations and a BLS key-registration (rogue key / chosen proof-of-possession) adversary, judged by a sign-log ground-truth oracle",
         "rule": "C02: certificate forgery campaign",
         "anchors": ["security/cert/auth.go", "security/crypto/", "security/cert/cache.go"],
         "parts": [
@@ -158,7 +158,7 @@ PROPERTIES = {
         "level_text": "in-package model check of the queue (exhaustive up to a length bound for capacities 1..4), reference-model monitor of the event loop over random API programs, and "
                       "concurrent producers under the race detector with exactly-once / order / drop-report checks and porcupine linearizability on short histories",
         "level_note": "order among handlers of the same class is not judged; handlers (un)registered during the dispatch of an event are not asserted for that event",
-        "technique": "reference-model monitor + exhaustive small-scope queue check + race detector + porcupine history checking",
+        "technique": "reference-model monitor + exhaustive small-scope queue check + race detector (directed concurrent harness and live loopback cluster) + porcupine history checking",
         "exhaustive": True,
         "rule": "C14: event loop",
         "parts": [
@@ -173,7 +173,7 @@ PROPERTIES = {
         "level_text": "reference-model monitor of the real CommandCache: exhaustive operation sequences over a small alphabet for batch sizes 1..3, random longer sequences, and a concurrent "
                       "producers/marker/consumers workload under the race detector with exactly-once, order, staleness, conservation and lost-wake-up checks at quiescence",
         "level_note": "a Get that must block is observed through a 150us deadline (only the context error is a legal outcome); 'blocked although a batch exists' is decided logically and confirmed by a 10s wait",
-        "technique": "reference-model monitor over exhaustive-small and random sequences + race detector + history checks at quiescence",
+        "technique": "reference-model monitor over exhaustive-small and random sequences + race detector (directed concurrent harness and live loopback cluster) + history checks at quiescence",
         "exhaustive": True,
         "rule": "C15: command cache",
         "parts": [
@@ -201,7 +201,7 @@ PROPERTIES = {
         "level_text": "commit monitor over executions of real replica stacks in a virtual-time simulator with hostile schedules, partitions, twins and scripted Byzantine actors (<= f): "
                       "every CommitEvent is checked online for chain linkage and all honest ledgers pairwise for the prefix relation after every step",
         "level_note": "simulated network applies the server's transport-identity rule; vote verification is synchronous; <= f faulty replicas; cryptographic hardness assumed",
-        "technique": "runtime monitor (commit-history oracle) over randomized hostile executions of the real stacks",
+        "technique": "runtime monitor (commit-history oracle) over randomized and scripted hostile executions of the real stacks in a virtual-time simulator, and over a live loopback gRPC cluster under the race detector",
         "rule": "C01: ledger agreement",
         "parts": [part("C01.sim", shards={"quick": 16, "thorough": 16}, floor=100, timeout={"quick": 900, "thorough": 14400}),
                   part("C01.live", race=True, shards={"quick": 4, "thorough": 16}, floor=1, timeout={"quick": 900, "thorough": 7200})],
@@ -210,7 +210,7 @@ PROPERTIES = {
         "level": "exploration",
         "level_text": "vote monitor: offline pass over the ground-truth sign log of every honest key after every step of the same hostile executions",
         "level_note": "leader of a view = what the node's own rotation answered; scripted/fixed/round-robin rotations only",
-        "technique": "runtime monitor (sign-log history oracle) over randomized hostile executions of the real stacks",
+        "technique": "runtime monitor (sign-log history oracle) over randomized and scripted hostile executions of the real stacks",
         "rule": "C03: voting discipline",
         "parts": [part("C03.sim", shards={"quick": 16, "thorough": 16}, floor=100, timeout={"quick": 900, "thorough": 14400})],
     },
@@ -218,7 +218,7 @@ PROPERTIES = {
         "level": "exploration",
         "level_text": "pacemaker monitor polled after every handled message: monotonicity, one ViewChangeEvent per view, and necessity of ground-truth quorum evidence for every view left",
         "level_note": "evidence oracle is a necessary condition computed from the sign log (cannot false-alarm); certificate validity judged by the ground-truth oracle",
-        "technique": "runtime monitor (state polling + sign-log evidence oracle) over randomized hostile executions",
+        "technique": "runtime monitor (state polling + sign-log evidence oracle) over randomized hostile executions in a virtual-time simulator, and monotonicity monitors on a live loopback gRPC cluster under the race detector",
         "rule": "C07: pacemaker",
         "parts": [part("C07.sim", shards={"quick": 16, "thorough": 16}, floor=100, timeout={"quick": 900, "thorough": 14400}),
                   part("C07.live", race=True, shards={"quick": 4, "thorough": 16}, floor=1, timeout={"quick": 900, "thorough": 7200})],
@@ -228,7 +228,7 @@ PROPERTIES = {
         "level_text": "execution/client monitor over hostile executions in which every command enters through a real ClientIO.ExecCommand call: outcome history per (replica, command), "
                       "ExecuteEvent/AbortEvent dispatch order, committed chain, command count and application digest are cross-checked per replica and between replicas",
         "level_note": "client goroutines make these executions non-deterministic in command placement; a logical barrier on ClientIO's waiter table precedes every look at the outcome list",
-        "technique": "runtime monitor (client-boundary outcome history + event history) over randomized hostile executions",
+        "technique": "runtime monitor (client-boundary outcome history + event history) over randomized hostile executions in a virtual-time simulator and over a live loopback gRPC cluster with real clients under the race detector",
         "rule": "C06: exactly-once execution",
         "parts": [part("C06.sim", shards={"quick": 16, "thorough": 16}, floor=50, timeout={"quick": 900, "thorough": 14400}),
                   part("C06.live", race=True, shards={"quick": 4, "thorough": 16}, floor=1, timeout={"quick": 900, "thorough": 7200})],
@@ -263,7 +263,7 @@ PROPERTIES = {
         "level_text": "vote-collector monitor on a real replica that is the next leader: genuine votes in varying orders, before/after the block, mixed with hostile votes; two-sided oracle from the "
                       "ground-truth sign log; asynchronous variant with goroutine-per-vote verification under the race detector judged at quiescence; Kauri tree collector with recorded contributions",
         "level_note": "the 'cannot be prevented' clause is asserted for the all-to-one collector only, as the property states; <= f restriction lifted (single-replica property)",
-        "technique": "runtime monitor (two-sided sign-log oracle) on a single real replica under hostile vote streams; race detector on the asynchronous variant",
+        "technique": "runtime monitor (two-sided sign-log oracle) on a single real replica under hostile vote streams; race detector on the asynchronous variants (per-vote goroutines; held verifications released across consecutive blocks)",
         "rule": "C09: vote collection",
         "parts": [
             part("C09.clique", shards={"quick": 16, "thorough": 16}, floor=200),
@@ -277,7 +277,7 @@ PROPERTIES = {
         "level_text": "structure-aware enumeration of wire messages (cross product of field states) through the real gorums service handlers, conversion code, event loop and protocol handlers "
                       "of a fully wired replica in several states; oracles: no panic (recovered, attributed to the innermost repository frame) and unchanged protocol state for input in which nothing verifies",
         "level_note": "handlers are called in-process with a peer context (no TLS identity path); verification is synchronous so a panic is caught on the calling goroutine",
-        "technique": "fault enumeration over structured wire messages with panic and state-invariance monitors",
+        "technique": "fault enumeration over structured wire messages plus byte-level mutation of the marshalled corpus, with panic, state-invariance, monotonicity and held-certificate monitors",
         "rule": "C10: hostile wire input",
         "parts": [part("C10.wire", target=("test", "server"), shards={"quick": 16, "thorough": 16}, floor=2000),
                   part("C10.fuzz", target=("test", "server"), shards={"quick": 16, "thorough": 16}, floor=1000)],
